@@ -6,6 +6,7 @@ avoided in favour of lists so that the output is independent of PYTHONHASHSEED.
 
 from __future__ import annotations
 
+import json
 import random
 
 UINT_ABI = ["uint64", "uint32", "uint16", "uint8", "byte", "bool"]
@@ -1068,7 +1069,7 @@ def gen_plan(seed: int, cfg: dict) -> dict:
                 for i in range(nsteps):
                     pops.append({"op": "build", "p": pid})
                     if i + 1 >= first and i + 1 < nsteps and r.random() < 0.35:
-                        pops.append(_compile_op(r, spec, enabled, sm_run))
+                        pops.append(_compile_op(r, spec, enabled, sm_run, [o for o in pops if o["op"] == "compile"]))
             else:
                 for i in range(nsteps):
                     pops.append({"op": "build", "p": pid})
@@ -1085,7 +1086,7 @@ def gen_plan(seed: int, cfg: dict) -> dict:
                     pops.insert(pos, {"op": "probe", "p": pid, "k": r.choice(faulty if faulty and r.random() < 0.7 else subs_probe), "what": r.choice(["type_of", "has_return"])})
             ncomp = r.choice([1, 2, 2, 3, 4])
             for _ in range(ncomp):
-                pops.append(_compile_op(r, spec, enabled, sm_run))
+                pops.append(_compile_op(r, spec, enabled, sm_run, [o for o in pops if o["op"] == "compile"]))
             if r.random() < 0.3:
                 # same options again: the "repeat counts" axis
                 last = [o for o in pops if o["op"] == "compile"][-1]
@@ -1233,7 +1234,12 @@ def gen_plan(seed: int, cfg: dict) -> dict:
     }
 
 
-def _compile_op(r, spec, enabled, sm_run) -> dict:
+def _compile_op(r, spec, enabled, sm_run, prev: list | None = None) -> dict:
+    if prev and r.random() < 0.3:
+        # the same options as an earlier compile of this program, with other activity in between
+        o = json.loads(json.dumps(r.choice(prev)))
+        o.pop("fault", None)
+        return o
     nf = "native" in enabled and r.random() < (0.15 if spec["target"] else 0.3)
     allow_sm = sm_run and r.random() < 0.5 and not _has_recursive_abi(spec)
     o = {"op": "compile", "p": spec["id"], "opts": gen_opts(r, spec, native_fail=nf, allow_sm=allow_sm), "obs": bool(spec["target"])}
